@@ -353,7 +353,9 @@ def named_anywhere():
 
 def port_value_st(names: Optional[Dict[str, int]] = None):
     opts = [st.integers(1, 6), st.integers(1, 6), st.sampled_from([1, 2, 65534, 65535]), st.integers(1, 65535),
-            st.sampled_from(named_anywhere())]
+            st.sampled_from(named_anywhere()),
+            # numbers whose name exists on some platform / version only (msrpc, onep-*, ripv6, drip, syslog, ssh, https)
+            st.sampled_from([135, 15001, 15002, 521, 3949, 514, 22, 443])]
     if names:
         opts.append(st.sampled_from(sorted(set(names.values()))))
         opts.append(st.sampled_from(sorted(set(names.values()))))
